@@ -265,28 +265,48 @@ where
             .delivery_tag
             .clone()
             .ok_or(LinkStateError::IllegalState)?;
-        let settled = self
+        // The same rule as in `send_transfer_without_modifying_unsettled_map`
+        let settled = transfer.settled.unwrap_or(match self.snd_settle_mode {
+            SenderSettleMode::Settled => true,
+            SenderSettleMode::Unsettled => false,
+            SenderSettleMode::Mixed => false,
+        });
+
+        // An unsettled delivery is registered before its first frame is handed to the session,
+        // so that an outcome that arrives early finds it
+        let outcome = if settled {
+            None
+        } else {
+            let (tx, rx) = oneshot::channel();
+            let unsettled = UnsettledMessage::new(payload_copy, None, message_format, tx);
+            {
+                let mut guard = self.unsettled.write();
+                guard
+                    .get_or_insert(OrderedMap::new())
+                    .insert(delivery_tag.clone(), unsettled);
+            }
+            Some(rx)
+        };
+
+        if let Err(error) = self
             .send_transfer_without_modifying_unsettled_map(writer, transfer, payload)
-            .await?;
-        match settled {
-            true => Ok(Settlement::Settled(delivery_tag)),
+            .await
+        {
+            if outcome.is_some() {
+                let mut guard = self.unsettled.write();
+                let _ = guard.as_mut().and_then(|m| m.swap_remove(&delivery_tag));
+            }
+            return Err(error);
+        }
+
+        match outcome {
+            None => Ok(Settlement::Settled(delivery_tag)),
             // If not set on the first (or only) transfer for a (multi-transfer)
             // delivery, then the settled flag MUST be interpreted as being false.
-            false => {
-                let (tx, rx) = oneshot::channel();
-                let unsettled = UnsettledMessage::new(payload_copy, None, message_format, tx);
-                {
-                    let mut guard = self.unsettled.write();
-                    guard
-                        .get_or_insert(OrderedMap::new())
-                        .insert(delivery_tag.clone(), unsettled);
-                }
-
-                Ok(Settlement::Unsettled {
-                    delivery_tag,
-                    outcome: rx,
-                })
-            }
+            Some(rx) => Ok(Settlement::Unsettled {
+                delivery_tag,
+                outcome: rx,
+            }),
         }
     }
 
